@@ -12,7 +12,7 @@ import json
 import os
 import sys
 
-SHAPES = ["unit", "tuple", "named", "enum", "generic"]
+SHAPES = ["unit", "tuple", "named", "enum", "generic", "generic_e_where", "generic_e_inline"]
 RETS = ["none", "unit", "u32", "result", "std_result", "path_result", "alias"]
 ATTRS = ["plain", "result", "no_log", "result_no_log", "bogus", "assign"]
 MSGV = ["plain", "generic_extra"]
@@ -69,6 +69,14 @@ def shape_src(shape):
     if shape == "generic":
         return ("#[derive(Actor, Debug, PartialEq, Clone)]\n    pub struct A<T> where T: Send + 'static + Clone + std::fmt::Debug + PartialEq { pub v: T, pub n: u32 }",
                 "A<T>", "<T>", "where T: Send + 'static + Clone + std::fmt::Debug + PartialEq", "A::<Vec<u8>> { v: vec![1, 2], n: 7 }")
+    # generic over the handler's error type: bounds in a where clause, or inline in the impl header
+    ebounds = "std::fmt::Display + Send + 'static + Clone + std::fmt::Debug + PartialEq"
+    if shape == "generic_e_where":
+        return ("#[derive(Actor, Debug, PartialEq, Clone)]\n    pub struct A<E> where E: %s { pub e: E, pub n: u32 }" % ebounds,
+                "A<E>", "<E>", "where E: %s" % ebounds, 'A::<String> { e: "boom".to_string(), n: 7 }')
+    if shape == "generic_e_inline":
+        return ("#[derive(Actor, Debug, PartialEq, Clone)]\n    pub struct A<E: %s> { pub e: E, pub n: u32 }" % ebounds,
+                "A<E>", "<E: %s>" % ebounds, "", 'A::<String> { e: "boom".to_string(), n: 7 }')
     raise ValueError(shape)
 
 
@@ -91,9 +99,14 @@ def expected_reply(ret, flag):
 def program(idx, shape, ret, attr, msgv):
     tdef, tname, gens, where, ctor = shape_src(shape)
     rt = RET_TYPE[ret]
+    generic_err = shape.startswith("generic_e") and ret in ("result", "std_result")
+    if generic_err:
+        rt = rt.replace("String", "E")
     arrow = "" if rt is None else " -> %s" % rt
     reply_ty = "()" if rt is None else rt
     body, _ = body_for(ret)
+    if generic_err:
+        body = "if flag { Err(self.e.clone()) } else { Ok(1) }"
     if msgv == "generic_extra":
         msg_def = "pub struct M<P>(pub P, pub bool);"
         msg_ty = "M<u32>"
@@ -106,7 +119,8 @@ def program(idx, shape, ret, attr, msgv):
         msg_ctor = "M({flag})"
         flag_expr = "msg.0"
         extra = ""
-    concrete = tname.replace("<T>", "<Vec<u8>>")
+    concrete = tname.replace("<T>", "<Vec<u8>>").replace("<E>", "<String>")
+    reply_ty = reply_ty if not generic_err else rt.replace(", E>", ", String>")
     src = f"""
 pub mod p{idx} {{
     #![allow(unused_imports, dead_code, clippy::all)]
